@@ -667,6 +667,10 @@ func genC01(g *Gen) {
 			o.Names = nil
 		}
 		src := GenView(r, o)
+		wide := o.Types && r.Chance(60)
+		if wide {
+			c01WidenDevices(r, src) // device numbers over the whole 12-bit major / 20-bit minor range
+		}
 		var prior []*MNode
 		cls := "fresh"
 		switch r.Intn(5) {
@@ -709,6 +713,12 @@ func genC01(g *Gen) {
 			setOwner(prior, unprivID)
 			cls += "+unpriv"
 		}
+		if wide {
+			cls += "+widedev"
+		}
+		if wide {
+			cls += "+widedev"
+		}
 		coll := c01Collision(src, prior)
 		if coll && !merge {
 			cls = "excluded-identity-collision(" + cls + ")"
@@ -725,6 +735,7 @@ func genC01(g *Gen) {
 		nontriv := prior != nil && len(WalkEntries(prior)) >= 2 && (merge || !coll)
 		g.Emit(0x0101, in, nontriv, cls)
 	}
+	genC01Hist(g)
 }
 
 // c01Collision mirrors Converge.identity_faithful (the hypothesis of C01/C02 in dirty mode): true
@@ -770,6 +781,19 @@ func c01Collision(src, prior []*MNode) bool {
 		}
 	}
 	return false
+}
+
+// c01WidenDevices spreads the device numbers of the block/char devices of a view over the whole
+// range of a Linux dev_t: major 12 bits, minor 20 bits, with the boundaries of the three bit
+// fields of st_rdev (minor bits 0..7, major bits 8..19, minor bits 20..31).
+func c01WidenDevices(r *Rng, ns []*MNode) {
+	for _, n := range ns {
+		if os.FileMode(n.Stat.Mode)&os.ModeDevice != 0 {
+			n.Stat.Devmajor = int64(Pick(r, []int{0, 1, 7, 255, 256, 2048, 4095, r.Intn(4096)}))
+			n.Stat.Devminor = int64(Pick(r, []int{0, 255, 256, 4095, 4096, 65535, 65536, 70000, 1<<20 - 1, r.Intn(1 << 20), r.Intn(1 << 20)}))
+		}
+		c01WidenDevices(r, n.Kids)
+	}
 }
 
 func setOwner(ns []*MNode, id uint32) {
